@@ -100,6 +100,9 @@ func (f *Dox) Call(s *slip.Scope, args slip.List, depth int) (result slip.Object
 			}
 		}
 		for _, sb := range steps {
+			if !sb.stepped {
+				continue
+			}
 			ns.UnsafeLet(sb.sym, ns.Eval(sb.step, d2))
 		}
 	}
